@@ -2,6 +2,6 @@ From Coq Require Import Extraction ExtrOcamlBasic.
 From CAres.Legacy Require Import Rec Legacy Legacy_spec AddrInfo Gai.
 Extraction Language OCaml.
 Extraction "../ocaml/gen/GaiModel.ml"
-  hosts_build hosts_search_host hosts_search_ip getaddrinfo ghbn_callback gethostbyaddr
+  hosts_build hosts_search_host hosts_search_ip getaddrinfo getaddrinfo_c spec_gai_nodes_c inet_pton4 ghbn_callback gethostbyaddr
   spec_gai_nodes spec_ptr rfc_ptr4 rfc_ptr6 round_nodes is_localhost has_flag
   rr_type spec_nodes view_host.
